@@ -3,6 +3,7 @@ package main
 import (
 	"fmt"
 	"go/types"
+	"sort"
 	"strings"
 )
 
@@ -438,6 +439,32 @@ func initStubs() {
 		}
 		return ret(st, l.F[i])
 	}
+	// GhostStr(name, i, j): j-th element (string) of the i-th ghost record; GhostInt likewise
+	ghostElem := func(e *Exec, st *State, args []Value) Value {
+		l, _ := st.Ghost["log:"+args[0].(*Term).S].(*Struct)
+		i, _ := concreteInt(args[1])
+		j, _ := concreteInt(args[2])
+		if l == nil || int(i) >= len(l.F) {
+			fail("ghost record %d out of range", i)
+		}
+		rec := l.F[i].(*Struct)
+		if int(j) >= len(rec.F) {
+			fail("ghost field %d out of range", j)
+		}
+		return rec.F[j]
+	}
+	stubTable[zzp+"GhostStr"] = func(e *Exec, st *State, fn *Func, args []Value, site string) []Outcome {
+		return ret(st, ghostElem(e, st, args))
+	}
+	stubTable[zzp+"GhostInt"] = stubTable[zzp+"GhostStr"]
+	stubTable[zzp+"GhostRecLen"] = func(e *Exec, st *State, fn *Func, args []Value, site string) []Outcome {
+		l, _ := st.Ghost["log:"+args[0].(*Term).S].(*Struct)
+		i, _ := concreteInt(args[1])
+		if l == nil || int(i) >= len(l.F) {
+			fail("ghost record %d out of range", i)
+		}
+		return ret(st, BVConst(uint64(len(l.F[i].(*Struct).F)), 64))
+	}
 	stubTable[zzp+"Symbolic"] = func(e *Exec, st *State, fn *Func, args []Value, site string) []Outcome {
 		return ret(st, True)
 	}
@@ -580,6 +607,8 @@ func initStubs() {
 		e.ghostLog(st, "display", args[1])
 		return ret(st)
 	}
+	initPromStubs()
+	initCtxStubs()
 	initMathStubs()
 	initTimeStubs()
 	initStringStubs()
@@ -695,4 +724,87 @@ func (e *Exec) ghostLog(st *State, name string, v Value) {
 		f = append(f, cur.F...)
 	}
 	st.Ghost["log:"+name] = &Struct{append(f, v)}
+}
+
+// ---- Prometheus (abstract multiset keyed by label values) ----
+
+const promPkg = "github.com/prometheus/client_golang/prometheus"
+
+func sliceStrings(e *Exec, st *State, v Value) []Value {
+	s := v.(Slice)
+	if s.Arr == 0 {
+		return nil
+	}
+	arr := e.objContent(st, s.Arr).(*Struct)
+	return append([]Value(nil), arr.F[s.Off:s.Off+s.Len]...)
+}
+
+func initPromStubs() {
+	newVec := func(e *Exec, st *State, fn *Func, args []Value, site string) []Outcome {
+		// opts struct: field "Name"
+		name := Value(StrConst("?"))
+		if os, ok := args[0].(*Struct); ok {
+			ot := fn.Fn.Signature.Params().At(0).Type().Underlying().(*types.Struct)
+			for i := 0; i < ot.NumFields(); i++ {
+				if ot.Field(i).Name() == "Name" {
+					name = os.F[i]
+				}
+			}
+		}
+		vt := fn.Fn.Signature.Results().At(0).Type().(*types.Pointer).Elem()
+		zv := e.zero(vt).(*Struct)
+		vs := vt.Underlying().(*types.Struct)
+		f := append([]Value(nil), zv.F...)
+		for i := 0; i < vs.NumFields(); i++ {
+			if vs.Field(i).Name() == "MetricVec" {
+				f[i] = Ptr{Obj: e.newObj(st, &Opaque{"metricvec"})}
+			}
+		}
+		id := e.newObj(st, &Struct{f})
+		rec := append([]Value{BVConst(uint64(id), 64), name}, sliceStrings(e, st, args[1])...)
+		e.ghostLog(st, "prom.newvec", &Struct{rec})
+		return ret(st, Ptr{Obj: id})
+	}
+	stubTable[promPkg+".NewSummaryVec"] = newVec
+	stubTable[promPkg+".NewRegistry"] = func(e *Exec, st *State, fn *Func, args []Value, site string) []Outcome {
+		return ret(st, Ptr{Obj: e.newObj(st, &Opaque{"registry"})})
+	}
+	stubTable["(*"+promPkg+".Registry).MustRegister"] = func(e *Exec, st *State, fn *Func, args []Value, site string) []Outcome {
+		return ret(st)
+	}
+	stubTable["(*"+promPkg+".SummaryVec).Reset"] = func(e *Exec, st *State, fn *Func, args []Value, site string) []Outcome {
+		e.ghostLog(st, "prom.reset", &Struct{[]Value{BVConst(uint64(args[0].(Ptr).Obj), 64)}})
+		return ret(st)
+	}
+	stubTable["(*"+promPkg+".MetricVec).Reset"] = stubTable["(*"+promPkg+".SummaryVec).Reset"]
+	stubTable["(*"+promPkg+".SummaryVec).WithLabelValues"] = func(e *Exec, st *State, fn *Func, args []Value, site string) []Outcome {
+		pp := e.prog.ImportedPackage(promPkg)
+		if pp == nil || pp.Type("summary") == nil {
+			fail("prometheus package not loaded")
+		}
+		id := e.newObj(st, &Struct{append([]Value{BVConst(uint64(args[0].(Ptr).Obj), 64)}, sliceStrings(e, st, args[1])...)})
+		return ret(st, Iface{T: types.NewPointer(pp.Type("summary").Type()), V: Ptr{Obj: id}})
+	}
+	stubTable["(*"+promPkg+".summary).Observe"] = func(e *Exec, st *State, fn *Func, args []Value, site string) []Outcome {
+		rec := e.objContent(st, args[0].(Ptr).Obj).(*Struct)
+		e.ghostLog(st, "prom.observe", &Struct{append(append([]Value(nil), rec.F...), args[1])})
+		return ret(st)
+	}
+	stubTable["sort.Strings"] = func(e *Exec, st *State, fn *Func, args []Value, site string) []Outcome {
+		s := args[0].(Slice)
+		if s.Arr == 0 || s.Len < 2 {
+			return ret(st)
+		}
+		arr := e.objContent(st, s.Arr).(*Struct)
+		f := append([]Value(nil), arr.F...)
+		seg := f[s.Off : s.Off+s.Len]
+		for _, v := range seg {
+			if t, ok := v.(*Term); !ok || !t.IsConst() {
+				fail("sort.Strings on symbolic strings")
+			}
+		}
+		sort.Slice(seg, func(i, j int) bool { return seg[i].(*Term).S < seg[j].(*Term).S })
+		st.Heap[s.Arr] = &Struct{f}
+		return ret(st)
+	}
 }
